@@ -15,7 +15,7 @@ except OSError:
     pass
 for d in sorted(os.listdir(root)):
     p = os.path.join(root, d)
-    if not os.path.isdir(p):
+    if not os.path.isdir(p) or not re.fullmatch(r"C\d+b?", d):
         continue
     notes = open(os.path.join(p, "NOTES.md")).read() if os.path.exists(os.path.join(p, "NOTES.md")) else ""
     confirm = open(os.path.join(p, "confirm.txt")).read().strip() if os.path.exists(os.path.join(p, "confirm.txt")) else None
